@@ -562,6 +562,10 @@ def _process_internal_events_without_default_matchers(
                 # The restart of an activated flow that was deactivated in the meantime
                 # (its last activator has ended): the flow is not started again
                 pass
+            elif not is_activated_child_flow and _is_done_flow(source_flow_state):
+                # The flow that asked for this start has ended in the meantime: flows
+                # do not outlive the flow that started them
+                pass
             elif started_instance and not is_activated_child_flow:
                 # Activate a flow that already has been activated
 
